@@ -122,6 +122,9 @@ class Report:
         for t in self.harness_errors:
             print("HARNESS-ERROR: %s" % t)
         cov = dict(self.coverage)
+        for dis in STATS.cross_disagree:
+            self.harness_errors.append("z3 and cvc5 disagree on an obligation: %s" % dis)
+            print("HARNESS-ERROR: z3 and cvc5 disagree on an obligation: %s" % dis)
         st = STATS.as_dict()
         cov.setdefault("samples", self.samples or ["(no samples recorded)"])
         cov["functions_encoded"] = self.functions
